@@ -2,7 +2,9 @@
 //! usage: c09 <n_programs> [big]
 //! writes (cwd): cases.txt (op log, one op per line, see ocaml/c09_driver.ml), impl_out.txt (result of
 //! every op), impl_rep.txt (inline/subtree state + stored count of the touched key after mutating ops,
-//! observed through MultimapTable::verif_collection_info), stats.json (input distribution, markers).
+//! observed through MultimapTable::verif_collection_info), impl_rep2.txt (the hook's whole tuple for the touched key:
+//! tag, stored count, subtree root is a LEAF (L) or BRANCH (B), byte length of the inline leaf / of the root leaf --
+//! compared with the extracted two-level model), stats.json (input distribution, markers).
 use redb::{
     Database, Durability, MultimapTableDefinition, ReadableDatabase, ReadableMultimapTable, ReadableTableMetadata,
     StorageBackend,
@@ -110,6 +112,7 @@ struct Log {
     cases: String,
     out: String,
     rep: String,
+    rep2: String,
     lines: u64,
 }
 impl Log {
@@ -118,8 +121,13 @@ impl Log {
         self.cases.push('\n');
         self.out.push_str(out);
         self.out.push('\n');
-        self.rep.push_str(rep);
+        // "<tag count>|<tag count root-kind root-leaf-bytes>": the first part goes to impl_rep.txt (compared with the
+        // representation model), the full tuple of verif_collection_info to impl_rep2.txt (compared with the two-level model)
+        let (a, b) = rep.split_once('|').unwrap_or((rep, rep));
+        self.rep.push_str(a);
         self.rep.push('\n');
+        self.rep2.push_str(b);
+        self.rep2.push('\n');
         self.lines += 1;
     }
 }
@@ -513,7 +521,8 @@ macro_rules! gen_runner {
                             let after = catch(|| t.verif_collection_info(&$kbr(&ko)));
                             rep = match &after {
                                 Ok(Ok(None)) => "absent".into(),
-                                Ok(Ok(Some((sub, n, _, _)))) => format!("{} {:x}", if *sub { "S" } else { "I" }, n),
+                                Ok(Ok(Some((sub, n, leaf, len)))) => format!("{} {:x}|{} {:x} {} {:x}", if *sub { "S" } else { "I" }, n,
+                                                                              if *sub { "S" } else { "I" }, n, if *leaf { "L" } else { "B" }, len),
                                 Ok(Err(e)) => format!("ERR:{e}"),
                                 Err(m) => format!("PANIC:{m}"),
                             };
@@ -637,6 +646,7 @@ fn main() {
     use std::io::Write as _;
     let mk = |n: &str| std::fs::File::create(n).unwrap();
     let (mut f_cases, mut f_out, mut f_rep, mut f_intent) = (mk("cases.txt"), mk("impl_out.txt"), mk("impl_rep.txt"), mk("intent.txt"));
+    let mut f_rep2 = mk("impl_rep2.txt");
     for id in 0..n {
         let (kt, vt) = *r.pick(&[('b', 'b'), ('u', 'u'), ('s', 'b'), ('b', 'b'), ('u', 'b'), ('s', 'u')]);
         let ps = *r.pick(&[512usize, 512, 1024, 2048, 4096]);
@@ -666,6 +676,8 @@ fn main() {
         f_cases.write_all(log.cases.as_bytes()).unwrap();
         f_out.write_all(log.out.as_bytes()).unwrap();
         f_rep.write_all(log.rep.as_bytes()).unwrap();
+        f_rep2.write_all(log.rep2.as_bytes()).unwrap();
+        f_rep2.flush().unwrap();
         f_cases.flush().unwrap();
         f_out.flush().unwrap();
         f_rep.flush().unwrap();
